@@ -1,9 +1,10 @@
 #!/venv/bin/python
 """C10 under PYTHON LANGUAGE TRAPS, COOPERATING SITES, EXCEPTION PATHS, RE-ENTRANCY, NUMERIC FORMS (sixth-round stream).
 
-    PYTHONPATH=/verif JAQALPAQ_RUN_EMULATOR=1 /venv/bin/python /verif/harness/agents/c10_traps.py [--seed 0] [--n 120] [--thorough]
+    PYTHONPATH=/verif JAQALPAQ_RUN_EMULATOR=1 /venv/bin/python /verif/harness/agents/c10_traps.py [--seed 0] [--n 350] [--thorough]
 
-`n` = number of generated programs (recommended: 120 quick, 700 thorough).  Oracles only.  Every program is generated
+`n` = number of generated programs (recommended: 350 quick ≈ 14 s, 2000 thorough ≈ 130 s; the thorough tier also runs a
+fourth history and all eight flag combinations per program).  Oracles only.  Every program is generated
 from a small structured SPEC (format of `c10_scale`: its printer `spec_text`, its independent reference `ref_meaning`
 — let = its value or the override in force, alias = the qubits it selects, macro call = its body with the arguments
 bound, subcircuit blocks spelled `prepare_all … measure_all` iff expand_subcircuits is in the history — and its reader of
@@ -944,7 +945,7 @@ def replay(case: dict, driver: str = DEFAULT_DRIVER) -> dict:
 def main():
     ap = argparse.ArgumentParser()
     ap.add_argument("--seed", type=int, default=0)
-    ap.add_argument("--n", type=int, default=120)
+    ap.add_argument("--n", type=int, default=350)
     ap.add_argument("--thorough", action="store_true")
     ap.add_argument("--json", action="store_true")
     a = ap.parse_args()
